@@ -92,8 +92,9 @@ func intAtoms(thorough bool) []atom {
 	near := func(v int) iv { return iv{v, "int-near-neighbour"} }
 	eq := func(v int) iv { return iv{v, "int-equal-neighbour"} }
 	extra := func(l []iv) []iv {
+		l = append(l, iv{100, "int-other"}, iv{-1000, "int-negative"})
 		if thorough {
-			l = append(l, iv{math.MinInt64, "int-negative"}, iv{-1000, "int-negative"}, iv{100, "int-other"}, iv{101, "int-other"}, iv{1 << 40, "int-huge"}, iv{hugeInt - 1, "int-huge"})
+			l = append(l, iv{math.MinInt64, "int-negative"}, iv{101, "int-other"}, iv{1 << 40, "int-huge"}, iv{hugeInt - 1, "int-huge"})
 		}
 		return l
 	}
@@ -384,7 +385,10 @@ func configEngine(prop, tier string, rng *rand.Rand, replay []json.RawMessage) (
 	if err != nil {
 		return nil, err
 	}
-	violations = append(violations, gv...)
+	if len(gv) > 0 {
+		// one line for the gate: the first disagreement, and how many there are
+		violations = append(violations, fmt.Sprintf("%s (start-up gate: %d disagreement(s) in %v runs)", gv[0], len(gv), ginfo["gate_runs"]))
+	}
 	for k, v := range ginfo {
 		res.Extra[k] = v
 	}
@@ -791,17 +795,49 @@ func buildEscalator(repo string) (string, error) {
 	return bin, nil
 }
 
-func optsDoc(o controller.NodeGroupOptions) map[string]interface{} {
-	// every option explicitly, with its type (YAML would otherwise read `5` or `yes` differently from JSON)
-	return map[string]interface{}{
-		"name": o.Name, "label_key": o.LabelKey, "label_value": o.LabelValue, "cloud_provider_group_name": o.CloudProviderGroupName,
-		"min_nodes": o.MinNodes, "max_nodes": o.MaxNodes, "dry_mode": o.DryMode, "scale_on_starve": o.ScaleOnStarve,
-		"taint_upper_capacity_threshold_percent": o.TaintUpperCapacityThresholdPercent, "taint_lower_capacity_threshold_percent": o.TaintLowerCapacityThresholdPercent,
-		"slow_node_removal_rate": o.SlowNodeRemovalRate, "fast_node_removal_rate": o.FastNodeRemovalRate, "scale_up_threshold_percent": o.ScaleUpThresholdPercent,
-		"scale_up_cool_down_period": o.ScaleUpCoolDownPeriod, "soft_delete_grace_period": o.SoftDeleteGracePeriod, "hard_delete_grace_period": o.HardDeleteGracePeriod,
-		"taint_effect": string(o.TaintEffect), "max_node_age": o.MaxNodeAge,
-		"aws": map[string]interface{}{"lifecycle": o.AWS.Lifecycle},
+// every option of the group explicitly, with its type (YAML would otherwise read `5` or `yes` differently from JSON), under
+// the json names of the COMPILED structs (so a renamed tag is followed and does not disturb the gate comparison)
+func structDoc(v reflect.Value) map[string]interface{} {
+	out := map[string]interface{}{}
+	t := v.Type()
+	for i := 0; i < t.NumField(); i++ {
+		f := t.Field(i)
+		if !f.IsExported() {
+			continue
+		}
+		tag := strings.Split(f.Tag.Get("json"), ",")[0]
+		if tag == "-" {
+			continue
+		}
+		if tag == "" {
+			tag = f.Name
+		}
+		fv := v.Field(i)
+		switch fv.Kind() {
+		case reflect.Struct:
+			out[tag] = structDoc(fv)
+		case reflect.String:
+			out[tag] = fv.String()
+		case reflect.Int, reflect.Int64:
+			out[tag] = int(fv.Int())
+		case reflect.Bool:
+			out[tag] = fv.Bool()
+		case reflect.Slice:
+			if fv.Len() == 0 {
+				continue // absent and empty decode differently (nil vs empty slice); the options compare them as given
+			}
+			l := []interface{}{}
+			for k := 0; k < fv.Len(); k++ {
+				l = append(l, fmt.Sprint(fv.Index(k).Interface()))
+			}
+			out[tag] = l
+		}
 	}
+	return out
+}
+
+func optsDoc(o controller.NodeGroupOptions) map[string]interface{} {
+	return structDoc(reflect.ValueOf(o))
 }
 
 type gateLine struct {
@@ -942,8 +978,7 @@ func gateCheck(specs []cfgSpec, verdicts []int, nfiles int, rng *rand.Rand) (vio
 			same := true
 			for k, g := range f.groups {
 				want := specs[g].Opts
-				want.AWS = controller.AWSNodeGroupOptions{Lifecycle: want.AWS.Lifecycle}
-				if !reflect.DeepEqual(dec[k], want) {
+				if len(changedFields(dec[k], want, "")) > 0 {
 					same = false
 					violations = append(violations, fmt.Sprintf("gate file %d (%s): group %d decodes to different options (differing: %v)", i, syn, k, changedFields(dec[k], want, "")))
 				}
